@@ -46,6 +46,9 @@ pub enum L {
   TRecursed(TaskId),
   /// Written by the engine when a build was cut by a panic.
   Aborted,
+  /// External change made while a session is open (logged when it is made; applied to the resource state the next time
+  /// anything looks at it, which is observationally the same).
+  ExtChange { r: ResId, val: Option<Val> },
   // resource side
   RRead { r: ResId, h: u32, val: Option<Val> },
   RWrite { r: ResId, h: u32 },
@@ -103,6 +106,8 @@ pub struct Cx {
   pub countdown: u32,
   /// Number of task-side operation points passed since the counter was last reset.
   pub ops: u32,
+  /// External changes made while a session holds the resource state; drained on the next access.
+  pub pending_ext: Vec<(ResId, Option<Val>)>,
 }
 
 thread_local! {
@@ -111,7 +116,7 @@ thread_local! {
 
 pub fn install(prog: Rc<Program>) {
   CX.with(|c| *c.borrow_mut() = Some(Cx {
-    prog, log: Vec::new(), streams: BTreeMap::new(), next_handle: 0, stack: Vec::new(), faults: BTreeSet::new(), countdown: 0, ops: 0,
+    prog, log: Vec::new(), streams: BTreeMap::new(), next_handle: 0, stack: Vec::new(), faults: BTreeSet::new(), countdown: 0, ops: 0, pending_ext: Vec::new(),
   }));
 }
 
@@ -153,6 +158,17 @@ pub struct VState {
   pub map: BTreeMap<ResId, Val>,
 }
 
+/// The instrumented state with pending external changes applied.
+pub fn vstate<RS: ResourceState<VRes>>(state: &mut RS) -> &mut VState {
+  let st = state.get_or_set_default_mut::<VState>();
+  apply_pending(st);
+  st
+}
+pub fn apply_pending(st: &mut VState) {
+  let pending = with_cx(|c| std::mem::take(&mut c.pending_ext));
+  for (r, val) in pending { match val { Some(v) => { st.map.insert(r, v % 4); } None => { st.map.remove(&r); } } }
+}
+
 pub struct VReader {
   pub h: u32,
   val: Option<Val>,
@@ -191,7 +207,7 @@ impl Resource for VRes {
   type Error = Infallible;
 
   fn read<'rs, RS: ResourceState<Self>>(&self, state: &'rs mut RS) -> Result<VReader, Infallible> {
-    let st = state.get_or_set_default_mut::<VState>();
+    let st = vstate(state);
     let val = st.map.get(&self.0).copied();
     let h = new_handle();
     log(L::RRead { r: self.0, h, val });
@@ -199,7 +215,7 @@ impl Resource for VRes {
   }
 
   fn write<'r, RS: ResourceState<Self>>(&'r self, state: &'r mut RS) -> Result<VWriter<'r>, Infallible> {
-    let st = state.get_or_set_default_mut::<VState>();
+    let st = vstate(state);
     let h = new_handle();
     log(L::RWrite { r: self.0, h });
     Ok(VWriter { h, res: self.0, state: st })
@@ -242,7 +258,7 @@ impl ResourceChecker<VRes> for RC {
   type Error = CkErr;
 
   fn stamp<RS: ResourceState<VRes>>(&self, resource: &VRes, state: &mut RS) -> Result<RStamp, CkErr> {
-    let val = state.get_or_set_default_mut::<VState>().map.get(&resource.0).copied();
+    let val = vstate(state).map.get(&resource.0).copied();
     let stamp = stamp_r(self.kind, val);
     log(L::CStamp { chk: self.kind, faulty: self.faulty, r: resource.0, route: StampRoute::Direct, stamp });
     Ok(RStamp(stamp))
@@ -265,7 +281,7 @@ impl ResourceChecker<VRes> for RC {
       log(L::CCheck { chk: self.kind, faulty: self.faulty, r: resource.0, stamp: stamp.0, verdict: Verdict::Error });
       return Err(CkErr(fault_message(resource.0, self.kind)));
     }
-    let val = state.get_or_set_default_mut::<VState>().map.get(&resource.0).copied();
+    let val = vstate(state).map.get(&resource.0).copied();
     let now = stamp_r(self.kind, val);
     let ok = rel_r(self.kind, stamp.0, now);
     let verdict = if ok { Verdict::Consistent } else { Verdict::Inconsistent };
